@@ -371,6 +371,7 @@ class Run:
                 "distribution": dict(sorted(self.hist.items())),
                 "exhaustive": bool(getattr(mod, "EXHAUSTIVE", {}).get(self.tier, False)),
                 "clauses": getattr(mod, "CLAUSES", {}),
+                "clause_caveats": list(getattr(mod, "CLAUSE_CAVEATS", [])),
                 "known_findings_seen": sorted(seen_known),
                 "notes": self.notes[:20],
             },
